@@ -265,6 +265,17 @@ def len_divisor_in_own_loop(body, bb, d):
     return False
 
 
+def owner_type(path):
+    """The type (for methods) or module (for free functions) a function belongs to: obligations are keyed by it, so that
+    moving a step between methods of one type (extracting or inlining a private method) keeps its key."""
+    path = strip_closures(path)
+    m = re.match(r'^<(.+?) as .+>::[A-Za-z_0-9]+$', path)
+    if m:
+        return m.group(1)
+    parts = path.rsplit('::', 1)
+    return parts[0] if len(parts) == 2 else path
+
+
 class Site:
     __slots__ = ('owner', 'body', 'bb', 'kind', 'opname', 'operand', 'desc', 'line', 'extra')
 
@@ -449,10 +460,10 @@ def run_singular(R, F, A, sites_table, rule='A.singular', fn_filter=None, floor=
         good, d, why = decide(s)
         if good:
             stats['auto'] += 1
-            R.ok(rule, '%s|%s:%s|auto' % (s.owner, s.kind, short(d, 50)), detail={'op': s.opname, 'operand': d[:200], 'why': why},
+            R.ok(rule, '%s|%s:%s|auto' % (owner_type(s.owner), s.kind, short(d, 50)), detail={'op': s.opname, 'operand': d[:200], 'why': why},
                  where=s.body.where(s.bb), nontrivial=True)
             continue
-        key = 'singular|%s|%s:%s' % (s.owner, s.kind, short(d))
+        key = 'singular|%s|%s:%s' % (owner_type(s.owner), s.kind, short(d))
         groups.setdefault(key, []).append((s, d, why))
     for key, lst in sorted(groups.items()):
         s, d, why = lst[0]
@@ -484,7 +495,7 @@ def run_singular(R, F, A, sites_table, rule='A.singular', fn_filter=None, floor=
     for own, cp, where in unclassified:
         if fn_filter is not None and not fn_filter(own):
             continue
-        R.bad(rule, '%s|dep:%s|unclassified' % (own, cp), 'call of %s on the audio path: not classified as total or singular '
+        R.bad(rule, '%s|dep:%s|unclassified' % (owner_type(own), cp), 'call of %s on the audio path: not classified as total or singular '
               '(fail closed; read its source and add it to GLAM_TOTAL / GLAM_SINGULAR)' % cp, where=where)
     R.extra.setdefault('engine_a_singular', {}).update(stats)
     if floor is not None:
